@@ -88,6 +88,16 @@ def run_synthetic(item):
                 else:
                     opt.optimize_feed_to_animals(consts, tc, pins)
                 rec = cap.solves[-1]
+                if item.get("repeat"):
+                    # a caller re-solving with the SAME input objects (as every round of the pipeline and every
+                    # sensitivity study does) must get the same optimum: the optimiser may not alter what it is given
+                    opt2 = Optimizer(consts, tc)
+                    if ty == "to_humans":
+                        opt2.optimize_to_humans(consts, tc)
+                    else:
+                        opt2.optimize_feed_to_animals(consts, tc, pins)
+                    rec = dict(rec, second_optimum=cap.solves[-1]["percent_fed_from_model"],
+                               second_lp_in=cap.solves[-1]["lp_in"])
             else:
                 if ty == "to_animals":
                     opt.time_consts["min_human_food_consumption"] = pins
